@@ -37,6 +37,7 @@ fn target_dir() -> String {
 
 fn native_worker(args: &[String]) {
     install_quiet_panic_hook();
+    install_host_logger(arg(args, "--host-log").and_then(|s| s.parse().ok()).unwrap_or(0));
     let seed: u64 = arg(args, "--seed").and_then(|s| s.parse().ok()).unwrap_or(simcommon::DEFAULT_SEED);
     let runs: Vec<RunDesc> = if let Some(f) = arg(args, "--episode-file") {
         let k: usize = arg(args, "--episode").and_then(|s| s.parse().ok()).unwrap_or(0);
@@ -206,6 +207,7 @@ fn worker_cmd_for(leg: char, batch: u64) -> Command {
     } else {
         Command::new(bin)
     };
+    c.arg("--host-log").arg((batch / 2).to_string());
     if leg != 'S' {
         c.arg("--worker");
         if one_thread {
